@@ -107,6 +107,11 @@ func BubbleOthers(self int, keep func(*G) bool) []G {
 		if !g.Bubble || g.ID == self {
 			continue
 		}
+		// the bubble's own infrastructure: the goroutine that called
+		// synctest.Test and the one waiting for the bubble's root function
+		if len(g.Frames) > 0 && (strings.HasPrefix(g.Frames[0], "internal/synctest.") || strings.HasPrefix(g.Frames[0], "testing/synctest.")) {
+			continue
+		}
 		if keep != nil && !keep(&g) {
 			continue
 		}
